@@ -649,6 +649,17 @@ def run(ctx):
         pass
     run_lincomb_lattice(ctx, con)
     run_api(ctx, con)
+    if ctx.thorough and ctx.shard == 0:
+        # W-ambient: the contract on every lincomb / multiply / divide the repository's own suite executes
+        from .c03 import ambient_suite
+        data = ambient_suite(ctx, {'VF_AMBIENT_LINCOMB': '1'}, 'c01')
+        if data is not None:
+            ctx.ev('lincomb-contract', int(data['stats'].get('lincomb-contract', 0)))
+            ctx.note('ambient', {'lincomb_contract_evaluations': data['stats'].get('lincomb-contract', 0),
+                                 'poisoned_elements': data.get('poisoned', 0)})
+            for v in data['violations']:
+                if '.lincomb' in v['component'] or '.multiply' in v['component'] or '.divide' in v['component']:
+                    ctx.violation(v['component'], 'ambient:' + v['config'], v['kind'], count=v['count'])
     cov.disarm()
     n_exec, n_hit, unreached = cov.report()
     ctx.note('line_coverage', {'executable': n_exec, 'hit': n_hit})
